@@ -221,12 +221,12 @@ Visit(fs, p, recursive, follow) ==
 ChmodTargets(fs, p, co) == {x \in Visit(fs, p, co.recursive, co.follow) : ~IsLink(fs, x)}
 Op_chown_b(st, p, co) == LET fs == st.fs IN
   IF ~Exists(fs, p) THEN R(st, RErr("Path::DoesNotExist"))
-  ELSE LET T == {x \in Visit(fs, p, co.recursive, co.follow) : co.follow => ~IsLink(fs, x)}
-           T2 == {x \in Visit(fs, p, co.recursive, co.follow) : TRUE}
-       IN [st |-> WithFs(st, [q \in DOMAIN fs |-> IF q \in T THEN [fs[q] EXCEPT !.uid = IF co.setu THEN co.uid ELSE @, !.gid = IF co.setg THEN co.gid ELSE @] ELSE fs[q]]),
-           res |-> ROk(Unit),
-           alt |-> {WithFs(st, [q \in DOMAIN fs |-> IF q \in T2 THEN [fs[q] EXCEPT !.uid = IF co.setu THEN co.uid ELSE @, !.gid = IF co.setg THEN co.gid ELSE @] ELSE fs[q]])},
-           partial |-> FALSE, paired |-> FALSE]
+  ELSE LET V == Visit(fs, p, co.recursive, co.follow)
+           Set(n) == [n EXCEPT !.uid = IF co.setu THEN co.uid ELSE @, !.gid = IF co.setg THEN co.gid ELSE @]
+           \* with follow the links on the way are stepping stones: whether their own owner changes is not settled (wildcard)
+           Loose(n) == [n EXCEPT !.uid = IF co.setu THEN AnyId ELSE @, !.gid = IF co.setg THEN AnyId ELSE @]
+       IN R(WithFs(st, [q \in DOMAIN fs |-> IF q \notin V THEN fs[q]
+                                             ELSE IF co.follow /\ IsLink(fs, q) THEN Loose(fs[q]) ELSE Set(fs[q])]), ROk(Unit))
 
 \* ---- queries ----
 BoolV(b) == IF b THEN <<"true">> ELSE <<"false">>
